@@ -19,6 +19,7 @@ else:
     subprocess.run(["rsync", "-a", "--exclude", "target", "--exclude", ".git", "/repo/", target + "/"], check=True)
     subprocess.run(["git", "init", "-q"], cwd=target)
     env["VERIF_REPO"] = target
+    env["VERIF_EVIDENCE_DIR"] = os.path.join(target, ".verif-evidence")
 r = subprocess.run(["git", "apply", os.path.join(d, "patch.diff")], cwd=target, capture_output=True, text=True)
 if r.returncode != 0:
     print("patch does not apply:", r.stderr)
